@@ -30,6 +30,7 @@ type Agg struct {
 	RaceCases    []int    // for each block: the first case index of the worker that reported it
 	RaceRaw      int      // raw number of WARNING: DATA RACE blocks
 	Extra        map[string]any
+	Audit        []json.RawMessage
 	mu           sync.Mutex
 }
 
@@ -69,6 +70,9 @@ func (a *Agg) merge(b *BatchResult) {
 	a.Violations = append(a.Violations, b.Violations...)
 	if b.MaxSteps > a.MaxSteps {
 		a.MaxSteps = b.MaxSteps
+	}
+	if len(a.Audit) < 6000 {
+		a.Audit = append(a.Audit, b.Audit...)
 	}
 }
 
@@ -222,6 +226,7 @@ func Drive(p Property, o DriveOpts) int {
 	if f, ok := p.(Finalizer); ok {
 		f.Finalize(agg, o.Tier)
 	}
+	runAudit(o, agg)
 
 	// 3. verdict + evidence
 	sort.Slice(agg.Violations, func(i, j int) bool { return agg.Violations[i].Case < agg.Violations[j].Case })
@@ -465,6 +470,7 @@ func mergeBatch(dst, b *BatchResult) {
 	dst.Samples = append(dst.Samples, b.Samples...)
 	dst.Violations = append(dst.Violations, b.Violations...)
 	dst.Digests = append(dst.Digests, b.Digests...)
+	dst.Audit = append(dst.Audit, b.Audit...)
 	if b.MaxSteps > dst.MaxSteps {
 		dst.MaxSteps = b.MaxSteps
 	}
@@ -585,4 +591,45 @@ func orNull(s string) string {
 		return "null"
 	}
 	return s
+}
+
+// runAudit hands the sampled (input, model verdict) records to oracle/audit.py (python jsonschema).
+// A disagreement never decides a property: it is reported as inconclusive (oracle dispute).
+func runAudit(o DriveOpts, agg *Agg) {
+	if len(agg.Audit) == 0 {
+		return
+	}
+	script := filepath.Join(o.VerifDir, "oracle", "audit.py")
+	py, err := exec.LookPath("python3-vt")
+	if err != nil {
+		agg.Extra["oracle_audit"] = map[string]any{"skipped": "python3-vt not available"}
+		return
+	}
+	path := filepath.Join(o.WorkDir, "audit.jsonl")
+	var buf strings.Builder
+	for _, r := range agg.Audit {
+		buf.Write(r)
+		buf.WriteByte('\n')
+	}
+	if os.WriteFile(path, []byte(buf.String()), 0o644) != nil {
+		return
+	}
+	ctx, cancel := context.WithTimeout(context.Background(), 15*time.Minute)
+	defer cancel()
+	out, err := exec.CommandContext(ctx, py, script, path).Output()
+	var res struct {
+		Checked        int    `json:"checked"`
+		Skipped        int    `json:"skipped"`
+		Disagreements  []any  `json:"disagreements"`
+		NDisagreements int    `json:"n_disagreements"`
+		Error          string `json:"error"`
+	}
+	if err != nil || json.Unmarshal(out, &res) != nil {
+		agg.Extra["oracle_audit"] = map[string]any{"skipped": fmt.Sprintf("audit failed to run: %v", err)}
+		return
+	}
+	agg.Extra["oracle_audit"] = map[string]any{"second_oracle": "python jsonschema (python3-vt)", "sampled": len(agg.Audit), "checked": res.Checked, "skipped_by_python": res.Skipped, "disagreements": res.NDisagreements, "examples": res.Disagreements, "error": res.Error}
+	if res.NDisagreements > 0 {
+		agg.AddInconclusive(fmt.Sprintf("oracle dispute: python jsonschema disagrees with the reference model on %d of %d sampled cases", res.NDisagreements, res.Checked))
+	}
 }
